@@ -36,8 +36,12 @@ func vIn(s string, list []string) bool {
 
 func VerifClassify() {
 	class := verifString(verifParam("L"))
-	stacks := []string{"", "at x.y", "java.io.IOException: Cannot append; log is closed\n at z"}
-	stack := stacks[verifChoose(len(stacks))]
+	// the class of an exception is the class the server names, whatever its stack trace mentions
+	stacks := []string{"", "at x.y", "java.io.IOException: Cannot append; log is closed\n at z",
+		"x.Wrapper: failed\n\tat a.b(C.java:1)\nCaused by: org.apache.hadoop.hbase.NotServingRegionException: other,,1 is not online\n\tat d.e",
+		"Caused by: org.apache.hadoop.hbase.RegionTooBusyException: busy\n  Caused by: org.apache.hadoop.hbase.regionserver.RegionServerStoppedException"}
+	si := verifChoose(len(stacks))
+	stack := stacks[si]
 	err := exceptionToError(class, stack)
 	verifAssert(err != nil, "an exception is an error")
 	_, isRetry := err.(RetryableError)
@@ -47,7 +51,7 @@ func VerifClassify() {
 	case vIn(class, vRetryClasses):
 		verifReach("retry-later")
 		verifAssert(isRetry, "retry-later classes are retried after a back-off")
-	case vIn(class, vRegionClasses) || (class == "java.io.IOException" && len(stack) > 10):
+	case vIn(class, vRegionClasses) || (class == "java.io.IOException" && si == 2):
 		verifReach("region")
 		verifAssert(isRegion, "region classes trigger re-establishment of the region")
 	case vIn(class, vServerClasses):
